@@ -309,6 +309,7 @@ Proof.
   unfold copy_no_delim. intros H HF Hr.
   match type of H with context [nd_loop ?a ?b ?c ?d ?e ?f] => destruct (nd_loop a b c d e f) as [[[[rest0 p0] adj] st]| |] eqn:El end;
     cbn [obind] in H; try discriminate.
+  destruct (g_fixed cfg && (k_ip st <=? bsz) && (bsz - k_ip st <? adj)); [discriminate|].
   destruct (bsz <? adj); [discriminate|]. destruct (bsz - adj <? k_ip st); [discriminate|].
   inversion H; subst; cbn. rewrite rev'_rev.
   destruct (nd_loop_lockstep _ _ rep _ _ _ _ _ _ _ _ El HF Hr (dec_nil rep)) as [Hd Hk].
@@ -366,6 +367,7 @@ Proof.
   unfold copy_no_delim. intros H HF.
   match type of H with context [nd_loop ?a ?b ?c ?d ?e ?f] => destruct (nd_loop a b c d e f) as [[[[rest0 p0] adj] st]| |] eqn:El end;
     cbn [obind] in H; try discriminate.
+  destruct (g_fixed cfg && (k_ip st <=? bsz) && (bsz - k_ip st <? adj)); [discriminate|].
   destruct (bsz <? adj); [discriminate|]. destruct (bsz - adj <? k_ip st); [discriminate|].
   inversion H; subst. eapply nd_loop_suffix; eassumption.
 Qed.
@@ -419,3 +421,689 @@ Theorem offbase_finalisation_lockstep cfg delims ers bsMax srcSize S rep dec blk
   compress_sequences cfg delims ers bsMax srcSize S rep dec = Done blks ->
   offsets_fit delims S -> rep_ok rep -> blocks_lockstep rep dec blks.
 Proof. unfold compress_sequences. apply cs_loop_lockstep. Qed.
+
+(* ====================================================================================================== *)
+(* ---------- explicit delimiters : determine_blockSize ---------- *)
+Lemma explicit_block_size_no_delimiter S : forall acc,
+  Forall (fun s => q_off s <> 0) S -> explicit_block_size S acc = Invalid 10.
+Proof.
+  induction S as [|s S IH]; intros acc HF; [reflexivity|].
+  inversion HF as [|? ? Hs HF']; subst. cbn [explicit_block_size].
+  apply N.eqb_neq in Hs. rewrite Hs. apply IH; exact HF'.
+Qed.
+
+Lemma explicit_block_size_split pre d rest : forall acc,
+  Forall (fun s => q_off s <> 0) pre -> q_off d = 0 ->
+  explicit_block_size (pre ++ d :: rest) acc =
+  if q_ml d =? 0 then Done (acc + sum32 pre + add32 (q_ll d) (q_ml d)) else Invalid 11.
+Proof.
+  induction pre as [|s pre IH]; intros acc HF Hd.
+  - cbn. rewrite Hd. cbn. rewrite N.add_0_r. reflexivity.
+  - inversion HF as [|? ? Hs HF']; subst. cbn [app explicit_block_size sum32].
+    apply N.eqb_neq in Hs. rewrite Hs. rewrite IH by assumption.
+    destruct (q_ml d =? 0); [|reflexivity]. f_equal. lia.
+Qed.
+
+Lemma cs_loop_first_error cfg delims ers bsMax f S pis pos remaining rep dec site :
+  remaining <> 0 -> determine_block_size delims bsMax remaining S = Invalid site ->
+  cs_loop (Datatypes.S f) cfg delims ers bsMax S pis pos remaining rep dec = Invalid site.
+Proof.
+  intros Hr Hd. cbn [cs_loop]. apply N.eqb_neq in Hr. rewrite Hr, Hd. reflexivity.
+Qed.
+
+Theorem delimiter_errors cfg ers bsMax srcSize S rep dec :
+  srcSize <> 0 ->
+  (* no delimiter at all *)
+  (Forall (fun s => q_off s <> 0) S -> compress_sequences cfg true ers bsMax srcSize S rep dec = Invalid 10) /\
+  (forall pre d rest, S = pre ++ d :: rest -> Forall (fun s => q_off s <> 0) pre -> q_off d = 0 ->
+     (* ill-formed delimiter *)
+     (q_ml d <> 0 -> compress_sequences cfg true ers bsMax srcSize S rep dec = Invalid 11) /\
+     (* block longer than the block size / than what remains of the source *)
+     (q_ml d = 0 -> bsMax < sum32 pre + add32 (q_ll d) 0 -> compress_sequences cfg true ers bsMax srcSize S rep dec = Invalid 12) /\
+     (q_ml d = 0 -> sum32 pre + add32 (q_ll d) 0 <= bsMax -> srcSize < sum32 pre + add32 (q_ll d) 0 ->
+        compress_sequences cfg true ers bsMax srcSize S rep dec = Invalid 13)).
+Proof.
+  intros Hn. unfold compress_sequences.
+  assert (Hf : exists f, (length S + N.to_nat srcSize + 2)%nat = Datatypes.S f) by (exists (length S + N.to_nat srcSize + 1)%nat; lia).
+  destruct Hf as [f Hf]. rewrite Hf. split.
+  - intros HF. apply cs_loop_first_error; [exact Hn|]. unfold determine_block_size.
+    rewrite explicit_block_size_no_delimiter by exact HF. reflexivity.
+  - intros pre d rest HS HF Hd. subst S. repeat split.
+    + intros Hml. apply cs_loop_first_error; [exact Hn|]. unfold determine_block_size.
+      rewrite explicit_block_size_split by assumption. apply N.eqb_neq in Hml. rewrite Hml. reflexivity.
+    + intros Hml Hgt. apply cs_loop_first_error; [exact Hn|]. unfold determine_block_size.
+      rewrite explicit_block_size_split by assumption. rewrite Hml. cbn [N.eqb obind]. rewrite N.add_0_l.
+      apply N.ltb_lt in Hgt. rewrite Hgt. reflexivity.
+    + intros Hml Hle Hgt. apply cs_loop_first_error; [exact Hn|]. unfold determine_block_size.
+      rewrite explicit_block_size_split by assumption. rewrite Hml. cbn [N.eqb obind]. rewrite N.add_0_l.
+      apply N.ltb_ge in Hle. rewrite Hle. apply N.ltb_lt in Hgt. rewrite Hgt. reflexivity.
+Qed.
+
+(* a block that the explicit copier accepts has lengths (as the code adds them) equal to the block size: "ip == iend" *)
+Fixpoint stored_sum32 (st : list sseq) : N :=
+  match st with [] => 0 | t :: r => add32 (t_ml t) (t_ll t) + stored_sum32 r end.
+
+Lemma stored_sum32_app a b : stored_sum32 (a ++ b) = stored_sum32 a + stored_sum32 b.
+Proof. induction a as [|t a IH]; cbn; [reflexivity|]. rewrite IH. lia. Qed.
+
+Lemma ex_loop_ip cfg ers bsz S : forall st offs rest st' offs',
+  ex_loop cfg ers bsz S st offs = Done (rest, st', offs') ->
+  k_ip st = stored_sum32 (rev (k_acc st)) -> k_ip st' = stored_sum32 (rev (k_acc st')).
+Proof.
+  induction S as [|s S IH]; intros st offs rest st' offs' H Hi.
+  - cbn in H. inversion H; subst. exact Hi.
+  - cbn [ex_loop] in H. destruct (is_delim s).
+    + inversion H; subst. exact Hi.
+    + destruct (store_seq cfg ers bsz (q_off s) (q_ll s) (q_ml s) st) as [st1| |] eqn:Es; cbn [obind] in H; try discriminate.
+      apply store_seq_done in Es. destruct Es as (Hip & _ & _ & _ & _ & Hacc).
+      destruct (bump_fields st1) as (Ea & _ & Ei & _).
+      eapply IH; [exact H|]. rewrite Ea, Ei, Hacc, Hip. cbn [rev]. rewrite stored_sum32_app. cbn. lia.
+Qed.
+
+Theorem explicit_block_lengths_agree cfg ers bsz S rep pos rest br :
+  copy_explicit cfg ers bsz S rep pos = Done (rest, br) ->
+  stored_sum32 (r_seqs br) + r_lastLL br = bsz.
+Proof.
+  unfold copy_explicit. intros H.
+  match type of H with context [ex_loop ?a ?b ?c ?d ?e ?f] => destruct (ex_loop a b c d e f) as [[[rest0 st] offs]| |] eqn:El end;
+    cbn [obind] in H; try discriminate.
+  destruct rest0 as [|d rest']; [discriminate|].
+  destruct (negb (q_ll d =? 0) && (bsz <? k_ip st + q_ll d)); [discriminate|].
+  destruct (negb (k_ip st + q_ll d =? bsz)) eqn:E; [discriminate|].
+  inversion H; subst; cbn. rewrite rev'_rev.
+  apply negb_false_iff, N.eqb_eq in E.
+  rewrite <- (ex_loop_ip _ _ _ _ _ _ _ _ _ El eq_refl). exact E.
+Qed.
+
+(* ---------- ZSTD_mergeBlockDelimiters keeps every match where it was ---------- *)
+Lemma merge_delims_placements S : forall pos carry,
+  total_len S + carry < M32 ->
+  placements pos (merge_delims S carry) = placements (pos + carry) S.
+Proof.
+  induction S as [|s S IH]; intros pos carry Hs; [reflexivity|].
+  cbn [total_len] in Hs. cbn [merge_delims placements].
+  rewrite add32_small by lia.
+  destruct (is_delim s) eqn:Ed.
+  - rewrite IH by lia. f_equal. lia.
+  - cbn [placements]. unfold is_delim in *. cbn [q_off q_ml q_ll]. rewrite Ed.
+    rewrite IH by lia. rewrite N.add_0_r. f_equal; [f_equal; f_equal; lia|f_equal; lia].
+Qed.
+
+Theorem merge_preserves_placements S :
+  total_len S < M32 -> placements 0 (merge_delims S 0) = placements 0 S.
+Proof. intros H. rewrite merge_delims_placements by lia. reflexivity. Qed.
+
+Lemma merge_delims_no_delims S : forall carry, Forall (fun s => is_delim s = false) (merge_delims S carry).
+Proof.
+  induction S as [|s S IH]; intros carry; cbn [merge_delims]; [constructor|].
+  destruct (is_delim s) eqn:Ed; [apply IH|]. constructor; [|apply IH]. exact Ed.
+Qed.
+
+(* ---------- producer : fallback decision ---------- *)
+Theorem producer_fallback cfg ers fallback buf nb capacity srcSize rep :
+  (post_process buf nb capacity srcSize = PPfail ->
+     producer_block cfg ers fallback buf nb capacity srcSize rep = if fallback then PRfallback else PRfail_producer) /\
+  (forall seqs, post_process buf nb capacity srcSize = PPok seqs ->
+     producer_block cfg ers fallback buf nb capacity srcSize rep <> PRfallback /\
+     producer_block cfg ers fallback buf nb capacity srcSize rep <> PRfail_producer) /\
+  (* when post-processing fails *)
+  (capacity < nb -> post_process buf nb capacity srcSize = PPfail) /\
+  (nb = 0 -> 0 < srcSize -> post_process buf nb capacity srcSize = PPfail) /\
+  (nb <= capacity -> 0 < nb -> 0 < srcSize -> is_delim (nth (N.to_nat (nb - 1)) buf (delim 0)) = false -> nb = capacity ->
+     post_process buf nb capacity srcSize = PPfail).
+Proof.
+  repeat split.
+  - intros H. unfold producer_block. rewrite H. reflexivity.
+  - unfold producer_block. rewrite H. destruct (srcSize <? length_sum seqs); [discriminate|].
+    destruct (copy_explicit cfg ers srcSize seqs rep 0) as [[? ?]| |]; discriminate.
+  - unfold producer_block. rewrite H. destruct (srcSize <? length_sum seqs); [discriminate|].
+    destruct (copy_explicit cfg ers srcSize seqs rep 0) as [[? ?]| |]; discriminate.
+  - intros H. unfold post_process. apply N.ltb_lt in H. rewrite H. reflexivity.
+  - intros H0 Hs. unfold post_process. subst nb.
+    destruct (capacity <? 0); [reflexivity|]. apply N.ltb_lt in Hs. rewrite Hs. reflexivity.
+  - intros Hle Hnb Hs Hd Hc. unfold post_process.
+    apply N.ltb_ge in Hle. rewrite Hle.
+    assert (E1 : (nb =? 0) = false) by (apply N.eqb_neq; lia). rewrite E1. cbn [andb].
+    assert (E2 : (srcSize =? 0) = false) by (apply N.eqb_neq; lia). rewrite E2.
+    rewrite Hd. apply N.eqb_eq in Hc. rewrite Hc. reflexivity.
+Qed.
+
+(* ---------- the repaired validation rule is the format's window rule (R's offset_ok, strict) ---------- *)
+Theorem validate_rule_is_format_rule cfg pos off hist marks blk :
+  1 <= off ->
+  (off <= offset_bound cfg pos <->
+   offset_ok true (pow2 (g_wlog cfg))
+             {| x_hist := hist; x_marks := marks; x_avail := g_dict cfg + pos; x_pos := pos; x_blk := blk |} off = true).
+Proof.
+  intros H1. unfold offset_bound, offset_ok. cbn [x_avail x_pos negb orb].
+  set (W := pow2 (g_wlog cfg)). set (D := g_dict cfg).
+  assert (E1 : (1 <=? off) = true) by (apply N.leb_le; exact H1). rewrite E1. cbn [andb].
+  destruct (W <? pos) eqn:Ew; [apply N.ltb_lt in Ew|apply N.ltb_ge in Ew].
+  - split.
+    + intros Ho. apply andb_true_iff. split; [apply N.leb_le; lia|].
+      assert (E2 : (off <=? pos) = true) by (apply N.leb_le; lia). rewrite E2. apply N.leb_le; exact Ho.
+    + intros Hb. apply andb_true_iff in Hb. destruct Hb as [Ha Hb]. apply N.leb_le in Ha.
+      destruct (off <=? pos) eqn:E2; apply N.leb_le in Hb; [exact Hb|lia].
+  - split.
+    + intros Ho. apply andb_true_iff. split; [apply N.leb_le; lia|].
+      destruct (off <=? pos) eqn:E2; apply N.leb_le; [apply N.leb_le in E2; lia|exact Ew].
+    + intros Hb. apply andb_true_iff in Hb. destruct Hb as [Ha Hb]. apply N.leb_le in Ha. lia.
+Qed.
+
+(* ---------- ZSTD_copyBlockSequences resolves the codes like the decoder (repaired variant) ---------- *)
+Lemma update_rep_is_decoder ob ll rep off rep' :
+  rep_ok rep -> 1 <= ob ->
+  resolve_offset ob ll rep = Ok (off, rep') -> update_rep rep ob (ll =? 0) = rep'.
+Proof.
+  destruct rep as [[r0 r1] r2]. unfold rep_ok. intros (H0 & H1 & H2) Hob.
+  destruct rep_index_vals as (I1 & I2 & I3 & I4 & I5 & I6).
+  unfold resolve_offset, update_rep.
+  destruct (3 <? ob) eqn:E3.
+  - intros H; inversion H; reflexivity.
+  - apply N.ltb_ge in E3.
+    assert (Hc : ob = 1 \/ ob = 2 \/ ob = 3) by lia.
+    assert (Hs : sub32 r0 1 = r0 - 1) by (apply sub32_small; lia).
+    destruct (ll =? 0); destruct Hc as [Hc|[Hc|Hc]]; subst ob; rewrite ?I1, ?I2, ?I3, ?I4, ?I5, ?I6, ?Hs; cbn;
+      try (intros H; inversion H; reflexivity).
+    destruct (1 <? r0); cbn; intros H; inversion H; reflexivity.
+Qed.
+
+Lemma resolve_offset_ok ob ll rep off rep' :
+  rep_ok rep -> 1 <= ob -> ob < M32 ->
+  resolve_offset ob ll rep = Ok (off, rep') -> rep_ok rep' /\ 1 <= off.
+Proof.
+  destruct rep as [[r0 r1] r2]. unfold rep_ok. intros (H0 & H1 & H2) Hob Hlt.
+  unfold resolve_offset.
+  destruct (3 <? ob) eqn:E3.
+  - apply N.ltb_lt in E3. intros H; inversion H; subst. repeat split; lia.
+  - destruct ((if ll =? 0 then ob + 1 else ob) =? 1); [intros H; inversion H; subst; repeat split; lia|].
+    destruct ((if ll =? 0 then ob + 1 else ob) =? 2); [intros H; inversion H; subst; repeat split; lia|].
+    destruct ((if ll =? 0 then ob + 1 else ob) =? 3); [intros H; inversion H; subst; repeat split; lia|].
+    destruct (1 <? r0) eqn:E; cbn; [|discriminate]. apply N.ltb_lt in E.
+    intros H; inversion H; subst. repeat split; lia.
+Qed.
+
+Lemma copy_block_raw_is_decoder ob ll rep off rep' :
+  rep_ok rep -> 1 <= ob ->
+  resolve_offset ob ll rep = Ok (off, rep') ->
+  (let '(r0, r1, r2) := rep in
+   if (1 <=? ob) && (ob <=? 3) then
+     (if negb (ll =? 0) then (if ob =? 1 then r0 else if ob =? 2 then r1 else r2)
+      else (if ob =? 3 then sub32 r0 1 else if ob =? 1 then r1 else r2))
+   else ob - 3) = off.
+Proof.
+  destruct rep as [[r0 r1] r2]. unfold rep_ok. intros (H0 & H1 & H2) Hob.
+  unfold resolve_offset.
+  assert (Hs : sub32 r0 1 = r0 - 1) by (apply sub32_small; lia). rewrite Hs.
+  destruct (3 <? ob) eqn:E3.
+  - apply N.ltb_lt in E3. assert (E : (ob <=? 3) = false) by (apply N.leb_gt; lia). rewrite E, andb_false_r.
+    intros H; inversion H; reflexivity.
+  - apply N.ltb_ge in E3.
+    assert (Hc : ob = 1 \/ ob = 2 \/ ob = 3) by lia.
+    destruct (ll =? 0); destruct Hc as [Hc|[Hc|Hc]]; subst ob; cbn; try (intros H; inversion H; reflexivity).
+    destruct (1 <? r0); cbn; intros H; inversion H; reflexivity.
+Qed.
+
+Theorem generate_resolves_like_decoder stored : forall rep offs rep',
+  rep_ok rep -> Forall (fun t => 1 <= t_ob t /\ t_ob t < M32) stored ->
+  decode_offsets rep stored = Ok (offs, rep') ->
+  map (fun g => q_off (o_seq g)) (copy_block_sequences true stored rep) = offs /\
+  map (fun g => (q_ll (o_seq g), q_ml (o_seq g))) (copy_block_sequences true stored rep) = map (fun t => (t_ll t, t_ml t)) stored.
+Proof.
+  induction stored as [|t stored IH]; intros rep offs rep' Hr HF Hd.
+  - cbn in Hd. inversion Hd; subst. split; reflexivity.
+  - inversion HF as [|? ? [Hob Hlt] HF']; subst.
+    cbn [decode_offsets] in Hd.
+    destruct (resolve_offset (t_ob t) (t_ll t) rep) as [[off rep1]|] eqn:Er; cbn [bind fst snd] in Hd; [|discriminate].
+    destruct (decode_offsets rep1 stored) as [[offs1 rep2]|] eqn:Ed; cbn [bind fst snd] in Hd; [|discriminate].
+    inversion Hd; subst.
+    pose proof (update_rep_is_decoder _ _ _ _ _ Hr Hob Er) as Hu.
+    pose proof (copy_block_raw_is_decoder _ _ _ _ _ Hr Hob Er) as Hraw.
+    destruct (resolve_offset_ok _ _ _ _ _ Hr Hob Hlt Er) as [Hr1 _].
+    destruct rep as [[r0 r1] r2].
+    cbn [copy_block_sequences map o_seq q_off q_ll q_ml]. rewrite Hu.
+    destruct (IH _ _ _ Hr1 HF' Ed) as [IH1 IH2]. rewrite IH1, IH2. rewrite Hraw. split; reflexivity.
+Qed.
+
+(* transcribing a block and extracting it again gives back the raw offsets (composition with the lock-step) *)
+Corollary generate_inverts_transcription cfg ers bsz S rep pos rest br :
+  copy_explicit cfg ers bsz S rep pos = Done (rest, br) ->
+  Forall off_ok S -> rep_ok rep -> Forall (fun t => 1 <= t_ob t /\ t_ob t < M32) (r_seqs br) ->
+  map (fun g => q_off (o_seq g)) (copy_block_sequences true (r_seqs br) rep) = map t_raw (r_seqs br).
+Proof.
+  intros H HF Hr Hob. destruct (copy_explicit_lockstep _ _ _ _ _ _ _ _ H HF Hr) as [Hd _].
+  exact (proj1 (generate_resolves_like_decoder _ _ _ _ Hr Hob Hd)).
+Qed.
+
+(* ---------- refutation witnesses on the snapshot variant (findings, replayed on the real code by the check) ---------- *)
+Definition z (off ll ml : N) : zseq := {| q_off := off; q_ll := ll; q_ml := ml |}.
+
+(* F4: {off 50, ll 0, ml 100} at position 0 passes validation: the bound is taken at the END of the match *)
+Example validation_offset_refuted :
+  let cfg := cfg_found 12 4 0 1000 true in
+  let S := [z 50 0 100; z 100 0 3900; delim 0] in
+  is_done (compress_sequences cfg true false 4000 4000 S rep_start []) = true /\
+  ~ rule_holds cfg 0 S /\
+  is_done (compress_sequences (cfg_fixed 12 4 0 1000 true) true false 4000 4000 S rep_start []) = false.
+Proof. cbv zeta. split; [vm_compute; reflexivity|]. split; [|vm_compute; reflexivity]. cbn. intros [[H _] _]. vm_compute in H. apply H. reflexivity. Qed.
+
+(* repcode bypass: {off 8, ll 0, ml 3} at position 0: 8 is the initial third repeat offset, the code (2) is what gets compared *)
+Example validation_repcode_refuted :
+  let cfg := cfg_found 10 3 0 33 true in
+  let S := [z 8 0 3] in
+  is_done (compress_sequences cfg false true 100 100 S rep_start []) = true /\
+  ~ rule_holds cfg 0 S /\
+  is_done (compress_sequences (cfg_fixed 10 3 0 33 true) false true 100 100 S rep_start []) = false.
+Proof. cbv zeta. split; [vm_compute; reflexivity|]. split; [|vm_compute; reflexivity]. cbn. intros [[H _] _]. vm_compute in H. apply H. reflexivity. Qed.
+
+(* U32 wrap: litLength 2^32-1 + matchLength 5 = 4 (mod 2^32): every test passes, ZSTD_storeSeq copies 2^32-1 literals *)
+Example validation_lengths_refuted :
+  let S := [z 1 4294967295 5; delim 3996] in
+  is_oob (compress_sequences (cfg_found 12 4 0 1000 true) true false 4000 4000 S rep_start []) = true /\
+  compress_sequences (cfg_fixed 12 4 0 1000 true) true false 4000 4000 S rep_start [] = Invalid 14.
+Proof. cbv zeta. split; vm_compute; reflexivity. Qed.
+
+(* delimiter-free list one byte longer than the source: bytesAdjustment (1025) exceeds the last block (3 bytes) *)
+Example overrun_refuted :
+  let S := [z 1 1 1026] in
+  is_oob (compress_sequences (cfg_found 10 4 0 256 true) false true 1024 1026 S rep_start []) = true /\
+  compress_sequences (cfg_fixed 10 4 0 256 true) false true 1024 1026 S rep_start [] = Invalid 15.
+Proof. cbv zeta. split; vm_compute; reflexivity. Qed.
+
+(* ZSTD_copyBlockSequences on the snapshot: litLength 65536 is taken for 0 when the history is updated *)
+Example generate_ll65536_refuted :
+  let st := [{| t_ll := 65536; t_ml := 4; t_ob := 2; t_raw := 4 |}; {| t_ll := 1; t_ml := 4; t_ob := 1; t_raw := 4 |}] in
+  map (fun g => q_off (o_seq g)) (copy_block_sequences false st rep_start) = [4; 8] /\
+  map (fun g => q_off (o_seq g)) (copy_block_sequences true st rep_start) = [4; 4] /\
+  decode_offsets rep_start st = Ok ([4; 4], (4, 1, 8)).
+Proof. cbv zeta. repeat split; vm_compute; reflexivity. Qed.
+
+(* ====================================================================================================== *)
+(* ---------- validation is complete on the repaired variant ---------- *)
+Inductive rule_rel (cfg : scfg) (pos0 : N) : list sseq -> N -> Prop :=
+  | rr_nil : rule_rel cfg pos0 [] pos0
+  | rr_cons acc cur t :
+      rule_rel cfg pos0 acc cur ->
+      1 <= t_raw t -> t_raw t <= offset_bound cfg (cur + t_ll t) -> match_len_lower cfg <= t_ml t ->
+      rule_rel cfg pos0 (t :: acc) (cur + t_ll t + t_ml t).
+
+Lemma stored_rule_app cfg a : forall pos b,
+  stored_rule cfg pos (a ++ b) <-> stored_rule cfg pos a /\ stored_rule cfg (stored_end pos a) b.
+Proof.
+  induction a as [|t a IH]; intros pos b; cbn [app stored_rule stored_end].
+  - tauto.
+  - rewrite IH. tauto.
+Qed.
+
+Lemma stored_end_app a : forall pos b, stored_end pos (a ++ b) = stored_end (stored_end pos a) b.
+Proof. induction a as [|t a IH]; intros pos b; cbn; [reflexivity|apply IH]. Qed.
+
+Lemma rule_rel_stored cfg pos0 acc cur :
+  rule_rel cfg pos0 acc cur -> stored_rule cfg pos0 (rev acc) /\ stored_end pos0 (rev acc) = cur.
+Proof.
+  induction 1 as [|acc cur t H [IH1 IH2] H1 H2 H3].
+  - cbn. auto.
+  - cbn [rev]. rewrite stored_rule_app, stored_end_app, IH2. cbn. repeat split; auto.
+Qed.
+
+Lemma validate_fixed_true cfg raw ml pos :
+  validate_fixed cfg raw ml pos = true -> 1 <= raw /\ raw <= offset_bound cfg pos /\ match_len_lower cfg <= ml.
+Proof.
+  unfold validate_fixed. intros H. apply andb_true_iff in H. destruct H as [H H3].
+  apply andb_true_iff in H. destruct H as [H1 H2].
+  apply negb_true_iff in H1, H2, H3. apply N.eqb_neq in H1. apply N.ltb_ge in H2, H3. lia.
+Qed.
+
+(* the invariant of both copiers on the repaired variant with validation on *)
+Definition vinv (cfg : scfg) (bsz pos0 : N) (st : cst) : Prop :=
+  k_ip st <= bsz /\ k_pos st = pos0 + k_ip st /\ rule_rel cfg pos0 (k_acc st) (pos0 + k_ip st).
+
+Lemma store_seq_vinv cfg ers bsz raw ll ml st st' pos0 :
+  g_fixed cfg = true -> g_validate cfg = true -> bsz < M32 ->
+  store_seq cfg ers bsz raw ll ml st = Done st' -> vinv cfg bsz pos0 st ->
+  vinv cfg bsz pos0 st' /\ k_ip st' = k_ip st + ll + ml /\ 1 <= raw /\ raw <= offset_bound cfg (k_pos st + ll).
+Proof.
+  intros Hf Hv Hb Hs (Hi & Hp & Hr).
+  destruct (store_seq_fixed_done _ _ _ _ _ _ _ _ Hf Hs) as (Hlen & Hval & _).
+  specialize (Hlen Hi). destruct (Hval Hv) as [Hvf Hpos].
+  apply validate_fixed_true in Hvf. destruct Hvf as (V1 & V2 & V3).
+  apply store_seq_done in Hs. destruct Hs as (Hip & _ & _ & _ & _ & Hacc).
+  rewrite add32_small in Hip by lia.
+  assert (Hip' : k_ip st' = k_ip st + ll + ml) by lia.
+  repeat split; try lia.
+  rewrite Hacc, Hip'. replace (pos0 + (k_ip st + ll + ml)) with (pos0 + k_ip st + ll + ml) by lia.
+  change ll with (t_ll {| t_ll := ll; t_ml := ml; t_ob := fst (code_offset ers raw ll (k_rep st)); t_raw := raw |}) at 2.
+  change ml with (t_ml {| t_ll := ll; t_ml := ml; t_ob := fst (code_offset ers raw ll (k_rep st)); t_raw := raw |}) at 3.
+  apply rr_cons; cbn; try assumption. rewrite <- Hp. exact V2.
+Qed.
+
+Lemma vinv_bump cfg bsz pos0 st : vinv cfg bsz pos0 st -> vinv cfg bsz pos0 (bump st).
+Proof. unfold vinv. destruct (bump_fields st) as (Ea & _ & Ei & Ep & _). rewrite Ea, Ei, Ep. auto. Qed.
+
+Lemma ex_loop_vinv cfg ers bsz pos0 S : forall st offs rest st' offs',
+  g_fixed cfg = true -> g_validate cfg = true -> bsz < M32 ->
+  ex_loop cfg ers bsz S st offs = Done (rest, st', offs') -> vinv cfg bsz pos0 st -> vinv cfg bsz pos0 st'.
+Proof.
+  induction S as [|s S IH]; intros st offs rest st' offs' Hf Hv Hb H Hi.
+  - cbn in H. inversion H; subst. exact Hi.
+  - cbn [ex_loop] in H. destruct (is_delim s).
+    + inversion H; subst. exact Hi.
+    + destruct (store_seq cfg ers bsz (q_off s) (q_ll s) (q_ml s) st) as [st1| |] eqn:Es; cbn [obind] in H; try discriminate.
+      destruct (store_seq_vinv _ _ _ _ _ _ _ _ pos0 Hf Hv Hb Es Hi) as [Hi1 _].
+      eapply IH; [exact Hf|exact Hv|exact Hb|exact H|apply vinv_bump; exact Hi1].
+Qed.
+
+Lemma nd_loop_vinv cfg bsz pos0 S : forall startp endp st rest pis adj st',
+  g_fixed cfg = true -> g_validate cfg = true -> bsz < M32 ->
+  nd_loop cfg bsz S startp endp st = Done (rest, pis, adj, st') -> vinv cfg bsz pos0 st -> vinv cfg bsz pos0 st'.
+Proof.
+  induction S as [|s S IH]; intros startp endp st rest pis adj st' Hf Hv Hb H Hi.
+  - cbn in H. inversion H; subst. exact Hi.
+  - cbn [nd_loop] in H.
+    destruct (endp =? 0); [inversion H; subst; exact Hi|].
+    destruct (add32 (q_ll s) (q_ml s) <=? endp).
+    + destruct (if q_ll s <=? startp then (0, sub32 (q_ml s) (sub32 startp (q_ll s))) else (sub32 (q_ll s) startp, q_ml s)) as [ll' ml'].
+      destruct (store_seq cfg true bsz (q_off s) ll' ml' st) as [st1| |] eqn:Es; cbn [obind] in H; try discriminate.
+      destruct (store_seq_vinv _ _ _ _ _ _ _ _ pos0 Hf Hv Hb Es Hi) as [Hi1 _].
+      eapply IH; [exact Hf|exact Hv|exact Hb|exact H|apply vinv_bump; exact Hi1].
+    + destruct (q_ll s <? endp).
+      * destruct ((bsz <? q_ml s) && (g_minMatch cfg <=? sub32 (sub32 endp startp) (if q_ll s <=? startp then 0 else sub32 (q_ll s) startp))).
+        -- match type of H with context [store_seq ?c ?e ?b ?r ?l ?m ?t] =>
+             destruct (store_seq c e b r l m t) as [st1| |] eqn:Es end; cbn [obind] in H; try discriminate.
+           inversion H; subst.
+           exact (proj1 (store_seq_vinv _ _ _ _ _ _ _ _ pos0 Hf Hv Hb Es Hi)).
+        -- inversion H; subst; exact Hi.
+      * inversion H; subst; exact Hi.
+Qed.
+
+Lemma vinv_init cfg bsz rep pos : vinv cfg bsz pos {| k_rep := rep; k_pos := pos; k_ip := 0; k_cnt := 0; k_acc := [] |}.
+Proof. unfold vinv; cbn. repeat split; try lia. rewrite N.add_0_r. constructor. Qed.
+
+Lemma copy_explicit_rule cfg ers bsz S rep pos rest br :
+  g_fixed cfg = true -> g_validate cfg = true -> bsz < M32 ->
+  copy_explicit cfg ers bsz S rep pos = Done (rest, br) ->
+  stored_rule cfg pos (r_seqs br) /\ r_pos br = pos + bsz /\ r_adj br = 0.
+Proof.
+  unfold copy_explicit. intros Hf Hv Hb H.
+  match type of H with context [ex_loop ?a ?b ?c ?d ?e ?f] => destruct (ex_loop a b c d e f) as [[[rest0 st] offs]| |] eqn:El end;
+    cbn [obind] in H; try discriminate.
+  destruct rest0 as [|d rest']; [discriminate|].
+  destruct (negb (q_ll d =? 0) && (bsz <? k_ip st + q_ll d)); [discriminate|].
+  destruct (negb (k_ip st + q_ll d =? bsz)) eqn:E; [discriminate|].
+  apply negb_false_iff, N.eqb_eq in E.
+  inversion H; subst; cbn. rewrite rev'_rev.
+  destruct (ex_loop_vinv _ _ _ pos _ _ _ _ _ _ Hf Hv Hb El (vinv_init _ _ _ _)) as (Hi & Hp & Hr).
+  apply rule_rel_stored in Hr. destruct Hr as [Hr _]. repeat split; [exact Hr|lia].
+Qed.
+
+Lemma copy_no_delim_rule cfg bsz S pis rep pos rest pis' br :
+  g_fixed cfg = true -> g_validate cfg = true -> bsz < M32 ->
+  copy_no_delim cfg bsz S pis rep pos = Done (rest, pis', br) ->
+  stored_rule cfg pos (r_seqs br) /\ r_pos br = pos + (bsz - r_adj br) /\ r_adj br <= bsz.
+Proof.
+  unfold copy_no_delim. intros Hf Hv Hb H.
+  match type of H with context [nd_loop ?a ?b ?c ?d ?e ?f] => destruct (nd_loop a b c d e f) as [[[[rest0 p0] adj] st]| |] eqn:El end;
+    cbn [obind] in H; try discriminate.
+  destruct (nd_loop_vinv _ _ pos _ _ _ _ _ _ _ _ Hf Hv Hb El (vinv_init _ _ _ _)) as (Hi & Hp & Hr).
+  rewrite Hf in H. cbn [andb] in H.
+  assert (Ei : (k_ip st <=? bsz) = true) by (apply N.leb_le; exact Hi). rewrite Ei in H. cbn [andb] in H.
+  destruct (bsz - k_ip st <? adj) eqn:E15; [discriminate|]. apply N.ltb_ge in E15.
+  destruct (bsz <? adj); [discriminate|]. destruct (bsz - adj <? k_ip st); [discriminate|].
+  inversion H; subst; cbn. rewrite rev'_rev.
+  apply rule_rel_stored in Hr. destruct Hr as [Hr _]. repeat split; [exact Hr|lia|lia].
+Qed.
+
+Lemma determine_block_size_le delims bsMax remaining S bs :
+  determine_block_size delims bsMax remaining S = Done bs -> bs <= bsMax /\ bs <= remaining.
+Proof.
+  unfold determine_block_size. destruct delims.
+  - destruct (explicit_block_size S 0) as [b| |]; cbn [obind]; try discriminate.
+    destruct (bsMax <? b) eqn:E1; [discriminate|]. destruct (remaining <? b) eqn:E2; [discriminate|].
+    intros H; inversion H; subst. apply N.ltb_ge in E1, E2. lia.
+  - intros H; inversion H; subst. destruct (remaining <=? bsMax) eqn:E; [apply N.leb_le in E|apply N.leb_gt in E]; lia.
+Qed.
+
+Lemma cs_loop_rule cfg delims ers bsMax : forall fuel S pis pos remaining rep dec blks,
+  g_fixed cfg = true -> g_validate cfg = true -> bsMax < M32 ->
+  cs_loop fuel cfg delims ers bsMax S pis pos remaining rep dec = Done blks -> blocks_rule cfg pos blks.
+Proof.
+  induction fuel as [|f IH]; intros S pis pos remaining rep dec blks Hf Hv Hb H.
+  - cbn in H. destruct (remaining =? 0); [|discriminate]. inversion H; subst. exact I.
+  - cbn [cs_loop] in H. destruct (remaining =? 0); [inversion H; subst; exact I|].
+    destruct (determine_block_size delims bsMax remaining S) as [bs| |] eqn:Ed; cbn [obind] in H; try discriminate.
+    destruct (determine_block_size_le _ _ _ _ _ Ed) as [Hbs _].
+    assert (Hbs32 : bs < M32) by lia.
+    assert (Hcopy : exists S' pis' br,
+              (if delims then olet r <- copy_explicit cfg ers bs S rep pos; Done (fst r, 0, snd r)
+               else copy_no_delim cfg bs S pis rep pos) = Done (S', pis', br) /\
+              stored_rule cfg pos (r_seqs br) /\ r_pos br = pos + (bs - r_adj br)).
+    { destruct delims.
+      - destruct (copy_explicit cfg ers bs S rep pos) as [[rest br]| |] eqn:Ec; cbn [obind fst snd] in H |- *; try discriminate.
+        destruct (copy_explicit_rule _ _ _ _ _ _ _ _ Hf Hv Hbs32 Ec) as (R1 & R2 & R3).
+        exists rest, 0, br. repeat split; auto. rewrite R3, N.sub_0_r. exact R2.
+      - destruct (copy_no_delim cfg bs S pis rep pos) as [[[rest pis'] br]| |] eqn:Ec; cbn [obind] in H |- *; try discriminate.
+        destruct (copy_no_delim_rule _ _ _ _ _ _ _ _ _ Hf Hv Hbs32 Ec) as (R1 & R2 & R3).
+        exists rest, pis', br. repeat split; auto. }
+    destruct Hcopy as (S' & pis' & br & Ec & R1 & R2). rewrite Ec in H. cbn [obind] in H.
+    destruct (bs - r_adj br <? TINY).
+    + match type of H with context [cs_loop ?a ?b ?c ?d ?e ?g ?h ?i ?j ?k ?l] =>
+        destruct (cs_loop a b c d e g h i j k l) as [rest'| |] eqn:Er end; cbn [obind] in H; try discriminate.
+      inversion H; subst. cbn. split; [exact R1|]. rewrite <- R2. eapply IH; eassumption.
+    + destruct (bs =? remaining).
+      * inversion H; subst. cbn. split; [exact R1|exact I].
+      * match type of H with context [cs_loop ?a ?b ?c ?d ?e ?g ?h ?i ?j ?k ?l] =>
+          destruct (cs_loop a b c d e g h i j k l) as [rest'| |] eqn:Er end; cbn [obind] in H; try discriminate.
+        inversion H; subst. cbn. split; [exact R1|]. rewrite <- R2. eapply IH; eassumption.
+Qed.
+
+(* With validation on, a list is accepted only if every stored piece satisfies the documented rule at the position
+   where its match starts (raw offset within min(window, position) + dictionary, never 0; matchLength >= 3 or 4). *)
+Theorem validation_complete cfg delims ers bsMax srcSize S rep dec blks :
+  g_fixed cfg = true -> g_validate cfg = true -> bsMax < M32 ->
+  compress_sequences cfg delims ers bsMax srcSize S rep dec = Done blks -> blocks_rule cfg 0 blks.
+Proof. unfold compress_sequences. apply cs_loop_rule. Qed.
+
+(* ====================================================================================================== *)
+(* ---------- memory safety of the repaired variant with validation on : no outcome is Oob ---------- *)
+Definition not_oob {A} (o : outc A) : Prop := forall site, o <> Oob site.
+
+Lemma pow2_le_31 n : n <= 31 -> pow2 n <= 2147483648.
+Proof.
+  intros H. unfold pow2. rewrite N.shiftl_1_l.
+  change 2147483648 with (2 ^ 31). apply N.pow_le_mono_r; lia.
+Qed.
+
+Lemma finalize_offbase_nonzero raw rep ll0 : raw + 3 < M32 -> finalize_offbase raw rep ll0 <> 0.
+Proof.
+  intros H. destruct rep as [[r0 r1] r2]. unfold finalize_offbase.
+  rewrite add32_small by lia.
+  destruct (negb ll0 && (raw =? r0)); [lia|].
+  destruct (raw =? r1); [destruct ll0; lia|].
+  destruct (raw =? r2); [destruct ll0; lia|].
+  destruct (ll0 && (raw =? sub32 r0 1)); lia.
+Qed.
+
+Definition safe_ctx (cfg : scfg) (bsz pos0 : N) : Prop :=
+  g_fixed cfg = true /\ g_validate cfg = true /\ g_wlog cfg <= 31 /\ bsz < M32 /\ pos0 + bsz + g_dict cfg + 3 < M32.
+
+Lemma store_seq_safe cfg ers bsz raw ll ml st pos0 :
+  safe_ctx cfg bsz pos0 -> vinv cfg bsz pos0 st -> not_oob (store_seq cfg ers bsz raw ll ml st).
+Proof.
+  intros (Hf & Hv & Hw & Hb & Hp) (Hi & Hpos & _) site.
+  unfold store_seq. rewrite Hf, Hv. cbn [andb].
+  destruct ((k_ip st <=? bsz) && (bsz - k_ip st <? ll + ml)) eqn:E1; [discriminate|].
+  destruct (validate_fixed cfg raw ml (k_pos st + ll)) eqn:E2; cbn [negb]; [|discriminate].
+  apply validate_fixed_true in E2. destruct E2 as (V1 & V2 & _).
+  apply andb_false_iff in E1. destruct E1 as [E1|E1]; [apply N.leb_gt in E1; lia|]. apply N.ltb_ge in E1.
+  assert (Hraw : raw + 3 < M32).
+  { unfold offset_bound in V2. pose proof (pow2_le_31 _ Hw) as Hpw.
+    destruct (pow2 (g_wlog cfg) <? k_pos st + ll); unfold M32 in *; lia. }
+  unfold store_tail. destruct (code_offset ers raw ll (k_rep st)) as [ob rep'] eqn:Ec.
+  assert (Hob : ers = true -> ob <> 0).
+  { intros He. subst ers. unfold code_offset in Ec. inversion Ec; subst. apply finalize_offbase_nonzero; exact Hraw. }
+  destruct ers.
+  - specialize (Hob eq_refl). apply N.eqb_neq in Hob. rewrite Hob. cbn [andb].
+    destruct (g_maxNbSeq cfg <=? k_cnt st); [discriminate|].
+    assert (E3 : (bsz <? k_ip st + ll) = false) by (apply N.ltb_ge; lia). rewrite E3. discriminate.
+  - cbn [andb].
+    destruct (g_maxNbSeq cfg <=? k_cnt st); [discriminate|].
+    assert (E3 : (bsz <? k_ip st + ll) = false) by (apply N.ltb_ge; lia). rewrite E3. discriminate.
+Qed.
+
+Lemma ex_loop_safe cfg ers bsz pos0 S : forall st offs,
+  safe_ctx cfg bsz pos0 -> vinv cfg bsz pos0 st -> not_oob (ex_loop cfg ers bsz S st offs).
+Proof.
+  induction S as [|s S IH]; intros st offs Hc Hi site; [discriminate|].
+  cbn [ex_loop]. destruct (is_delim s); [discriminate|].
+  destruct (store_seq cfg ers bsz (q_off s) (q_ll s) (q_ml s) st) as [st1| |] eqn:Es; cbn [obind]; try discriminate.
+  - destruct Hc as (Hf & Hv & Hw & Hb & Hp).
+    destruct (store_seq_vinv _ _ _ _ _ _ _ _ pos0 Hf Hv Hb Es Hi) as [Hi1 _].
+    apply IH; [repeat split; assumption|apply vinv_bump; exact Hi1].
+  - exfalso. exact (store_seq_safe _ _ _ _ _ _ _ _ Hc Hi _ Es).
+Qed.
+
+Lemma nd_loop_safe cfg bsz pos0 S : forall startp endp st,
+  safe_ctx cfg bsz pos0 -> vinv cfg bsz pos0 st -> not_oob (nd_loop cfg bsz S startp endp st).
+Proof.
+  induction S as [|s S IH]; intros startp endp st Hc Hi site; [discriminate|].
+  cbn [nd_loop]. destruct (endp =? 0); [discriminate|].
+  destruct Hc as (Hf & Hv & Hw & Hb & Hp).
+  assert (Hc : safe_ctx cfg bsz pos0) by (repeat split; assumption).
+  destruct (add32 (q_ll s) (q_ml s) <=? endp).
+  - destruct (if q_ll s <=? startp then (0, sub32 (q_ml s) (sub32 startp (q_ll s))) else (sub32 (q_ll s) startp, q_ml s)) as [ll' ml'].
+    destruct (store_seq cfg true bsz (q_off s) ll' ml' st) as [st1| |] eqn:Es; cbn [obind]; try discriminate.
+    + destruct (store_seq_vinv _ _ _ _ _ _ _ _ pos0 Hf Hv Hb Es Hi) as [Hi1 _].
+      apply IH; [exact Hc|apply vinv_bump; exact Hi1].
+    + exfalso. exact (store_seq_safe _ _ _ _ _ _ _ _ Hc Hi _ Es).
+  - destruct (q_ll s <? endp); [|discriminate].
+    destruct ((bsz <? q_ml s) && (g_minMatch cfg <=? sub32 (sub32 endp startp) (if q_ll s <=? startp then 0 else sub32 (q_ll s) startp))); [|discriminate].
+    match goal with |- context [store_seq ?c ?e ?b ?r ?l ?m ?t] =>
+      destruct (store_seq c e b r l m t) as [st1| |] eqn:Es end; cbn [obind]; try discriminate.
+    exfalso. exact (store_seq_safe _ _ _ _ _ _ _ _ Hc Hi _ Es).
+Qed.
+
+Lemma copy_no_delim_safe cfg bsz S pis rep pos :
+  safe_ctx cfg bsz pos -> not_oob (copy_no_delim cfg bsz S pis rep pos).
+Proof.
+  intros Hc site. unfold copy_no_delim.
+  match goal with |- context [nd_loop ?a ?b ?c ?d ?e ?f] => destruct (nd_loop a b c d e f) as [[[[rest0 p0] adj] st]| |] eqn:El end;
+    cbn [obind]; try discriminate.
+  - destruct Hc as (Hf & Hv & Hw & Hb & Hp).
+    destruct (nd_loop_vinv _ _ pos _ _ _ _ _ _ _ _ Hf Hv Hb El (vinv_init _ _ _ _)) as (Hi & _ & _).
+    rewrite Hf. cbn [andb]. assert (Ei : (k_ip st <=? bsz) = true) by (apply N.leb_le; exact Hi). rewrite Ei. cbn [andb].
+    destruct (bsz - k_ip st <? adj) eqn:E15; [discriminate|]. apply N.ltb_ge in E15.
+    assert (E7 : (bsz <? adj) = false) by (apply N.ltb_ge; lia). rewrite E7.
+    assert (E8 : (bsz - adj <? k_ip st) = false) by (apply N.ltb_ge; lia). rewrite E8. discriminate.
+  - exfalso. exact (nd_loop_safe _ _ pos _ _ _ _ Hc (vinv_init _ _ _ _) _ El).
+Qed.
+
+(* explicit mode: what determine_blockSize has established about the list *)
+Lemma explicit_block_size_done S : forall acc b,
+  explicit_block_size S acc = Done b ->
+  exists pre d rest, S = pre ++ d :: rest /\ Forall (fun s => is_delim s = false) pre /\ is_delim d = true /\
+                     b = acc + sum32 pre + add32 (q_ll d) 0.
+Proof.
+  induction S as [|s S IH]; intros acc b H; [discriminate|].
+  cbn [explicit_block_size] in H. destruct (q_off s =? 0) eqn:Eo.
+  - destruct (q_ml s =? 0) eqn:Em; [|discriminate]. inversion H; subst.
+    exists [], s, S. cbn. repeat split; [constructor|unfold is_delim; rewrite Eo, Em; reflexivity|].
+    apply N.eqb_eq in Em. rewrite Em. lia.
+  - destruct (IH _ _ H) as (pre & d & rest & HS & HF & Hd & Hb). subst S.
+    exists (s :: pre), d, rest. cbn. repeat split; [constructor; [unfold is_delim; rewrite Eo; reflexivity|exact HF]|exact Hd|lia].
+Qed.
+
+Lemma ex_loop_pre cfg ers bsz pos0 d rest' pre : forall st offs r st' offs',
+  g_fixed cfg = true -> g_validate cfg = true -> bsz < M32 ->
+  Forall (fun s => is_delim s = false) pre -> is_delim d = true ->
+  ex_loop cfg ers bsz (pre ++ d :: rest') st offs = Done (r, st', offs') -> vinv cfg bsz pos0 st ->
+  r = d :: rest' /\ k_ip st' = k_ip st + sum32 pre.
+Proof.
+  induction pre as [|s pre IH]; intros st offs r st' offs' Hf Hv Hb HF Hd H Hi.
+  - cbn [app ex_loop] in H. rewrite Hd in H. inversion H; subst. cbn. split; [reflexivity|lia].
+  - inversion HF as [|? ? Hs HF']; subst. cbn [app ex_loop] in H. rewrite Hs in H.
+    destruct (store_seq cfg ers bsz (q_off s) (q_ll s) (q_ml s) st) as [st1| |] eqn:Es; cbn [obind] in H; try discriminate.
+    destruct (store_seq_vinv _ _ _ _ _ _ _ _ pos0 Hf Hv Hb Es Hi) as (Hi1 & Hip & _).
+    pose proof (store_seq_fixed_done _ _ _ _ _ _ _ _ Hf Es) as (Hlen & _). destruct Hi as (Hi & _). specialize (Hlen Hi).
+    destruct (IH _ _ _ _ _ Hf Hv Hb HF' Hd H (vinv_bump _ _ _ _ Hi1)) as [Hr Hk].
+    split; [exact Hr|]. destruct (bump_fields st1) as (_ & _ & Ei & _). rewrite Ei in Hk.
+    cbn [sum32]. rewrite add32_small by lia. lia.
+Qed.
+
+Definition fields32 (S : list zseq) : Prop := Forall (fun s => q_ll s < M32) S.
+
+Lemma copy_explicit_safe cfg ers bsz S rep pos :
+  safe_ctx cfg bsz pos -> fields32 S -> explicit_block_size S 0 = Done bsz ->
+  not_oob (copy_explicit cfg ers bsz S rep pos).
+Proof.
+  intros Hc H32 Hbs site. unfold copy_explicit.
+  destruct (explicit_block_size_done _ _ _ Hbs) as (pre & d & rest' & HS & HF & Hd & Hb).
+  match goal with |- context [ex_loop ?a ?b ?c ?d ?e ?f] => destruct (ex_loop a b c d e f) as [[[rest0 st] offs]| |] eqn:El end;
+    cbn [obind]; try discriminate.
+  - destruct Hc as (Hf & Hv & Hw & Hb32 & Hp). subst S.
+    destruct (ex_loop_pre _ _ _ pos _ _ _ _ _ _ _ _ Hf Hv Hb32 HF Hd El (vinv_init _ _ _ _)) as [Hr Hk].
+    subst rest0. cbn [k_ip] in Hk.
+    assert (Hll : q_ll d < M32).
+    { unfold fields32 in H32. apply Forall_app in H32. destruct H32 as [_ H32]. inversion H32; assumption. }
+    rewrite add32_small in Hb by lia.
+    assert (E5 : (bsz <? k_ip st + q_ll d) = false) by (apply N.ltb_ge; lia). rewrite E5, andb_false_r.
+    destruct (negb (k_ip st + q_ll d =? bsz)); discriminate.
+  - exfalso. exact (ex_loop_safe _ _ _ pos _ _ _ Hc (vinv_init _ _ _ _) _ El).
+Qed.
+
+Lemma cs_loop_safe cfg delims ers bsMax srcSize : forall fuel S pis pos remaining rep dec,
+  g_fixed cfg = true -> g_validate cfg = true -> g_wlog cfg <= 31 -> bsMax < M32 ->
+  srcSize + g_dict cfg + 3 < M32 -> pos + remaining <= srcSize -> fields32 S ->
+  not_oob (cs_loop fuel cfg delims ers bsMax S pis pos remaining rep dec).
+Proof.
+  induction fuel as [|f IH]; intros S pis pos remaining rep dec Hf Hv Hw Hb Hsrc Hpos H32 site.
+  - cbn. destruct (remaining =? 0); discriminate.
+  - cbn [cs_loop]. destruct (remaining =? 0); [discriminate|].
+    destruct (determine_block_size delims bsMax remaining S) as [bs| |] eqn:Ed; cbn [obind]; try discriminate.
+    2:{ unfold determine_block_size in Ed. destruct delims; [|discriminate].
+        destruct (explicit_block_size S 0) as [b| |] eqn:Eb; cbn [obind] in Ed; try discriminate.
+        - destruct (bsMax <? b); [discriminate|]. destruct (remaining <? b); discriminate.
+        - clear -Eb. exfalso. revert Eb. generalize 0 at 1. induction S as [|s S IHS]; intros acc; cbn; [discriminate|].
+          destruct (q_off s =? 0); [destruct (q_ml s =? 0); discriminate|apply IHS]. }
+    destruct (determine_block_size_le _ _ _ _ _ Ed) as [Hbs Hbr].
+    assert (Hc : safe_ctx cfg bs pos) by (repeat split; try assumption; lia).
+    destruct delims.
+    + assert (Hebs : explicit_block_size S 0 = Done bs).
+      { unfold determine_block_size in Ed. destruct (explicit_block_size S 0) as [b| |]; cbn [obind] in Ed; try discriminate.
+        destruct (bsMax <? b); [discriminate|]. destruct (remaining <? b); [discriminate|]. inversion Ed; reflexivity. }
+      destruct (copy_explicit cfg ers bs S rep pos) as [[rest br]| |] eqn:Ec; cbn [obind fst snd]; try discriminate.
+      2:{ exfalso. exact (copy_explicit_safe _ _ _ _ _ _ Hc H32 Hebs _ Ec). }
+      destruct (copy_explicit_rule _ _ _ _ _ _ _ _ Hf Hv (proj1 (proj2 (proj2 (proj2 Hc)))) Ec) as (_ & R2 & R3).
+      pose proof (copy_explicit_suffix _ _ _ _ _ _ _ _ _ Ec H32) as H32'.
+      rewrite R3, N.sub_0_r.
+      destruct (bs <? TINY).
+      * match goal with |- context [cs_loop ?a ?b ?c ?d ?e ?g ?h ?i ?j ?k ?l] =>
+          destruct (cs_loop a b c d e g h i j k l) as [rest'| |] eqn:Er end; cbn [obind]; try discriminate.
+        exfalso. refine (IH _ _ _ _ _ _ Hf Hv Hw Hb Hsrc _ H32' _ Er). rewrite R2. lia.
+      * destruct (bs =? remaining); [discriminate|].
+        match goal with |- context [cs_loop ?a ?b ?c ?d ?e ?g ?h ?i ?j ?k ?l] =>
+          destruct (cs_loop a b c d e g h i j k l) as [rest'| |] eqn:Er end; cbn [obind]; try discriminate.
+        exfalso. refine (IH _ _ _ _ _ _ Hf Hv Hw Hb Hsrc _ H32' _ Er). rewrite R2. lia.
+    + destruct (copy_no_delim cfg bs S pis rep pos) as [[[rest pis'] br]| |] eqn:Ec; cbn [obind]; try discriminate.
+      2:{ exfalso. exact (copy_no_delim_safe _ _ _ _ _ _ Hc _ Ec). }
+      destruct (copy_no_delim_rule _ _ _ _ _ _ _ _ _ Hf Hv (proj1 (proj2 (proj2 (proj2 Hc)))) Ec) as (_ & R2 & R3).
+      pose proof (copy_no_delim_suffix _ _ _ _ _ _ _ _ _ _ Ec H32) as H32'.
+      destruct (bs - r_adj br <? TINY).
+      * match goal with |- context [cs_loop ?a ?b ?c ?d ?e ?g ?h ?i ?j ?k ?l] =>
+          destruct (cs_loop a b c d e g h i j k l) as [rest'| |] eqn:Er end; cbn [obind]; try discriminate.
+        exfalso. refine (IH _ _ _ _ _ _ Hf Hv Hw Hb Hsrc _ H32' _ Er). rewrite R2. lia.
+      * destruct (bs =? remaining); [discriminate|].
+        match goal with |- context [cs_loop ?a ?b ?c ?d ?e ?g ?h ?i ?j ?k ?l] =>
+          destruct (cs_loop a b c d e g h i j k l) as [rest'| |] eqn:Er end; cbn [obind]; try discriminate.
+        exfalso. refine (IH _ _ _ _ _ _ Hf Hv Hw Hb Hsrc _ H32' _ Er). rewrite R2. lia.
+Qed.
+
+(* With validation on, the repaired copiers never read or write outside the block or the sequence array, whatever the
+   sequence array contains (32-bit fields), for sources below 4 GiB. *)
+Theorem validation_memory_safe cfg delims ers bsMax srcSize S rep dec :
+  g_fixed cfg = true -> g_validate cfg = true -> g_wlog cfg <= 31 -> bsMax < M32 ->
+  srcSize + g_dict cfg + 3 < M32 -> fields32 S ->
+  forall site, compress_sequences cfg delims ers bsMax srcSize S rep dec <> Oob site.
+Proof.
+  intros Hf Hv Hw Hb Hs H32 site. unfold compress_sequences.
+  refine (cs_loop_safe cfg delims ers bsMax srcSize _ S 0 0 srcSize rep dec Hf Hv Hw Hb Hs _ H32 site). lia.
+Qed.
